@@ -113,6 +113,11 @@ SpansCover       == Ok => /\ SpansCoverOf(src, items, spans)
 ErrExact         == phase = "done" => (err <=> ~Schedulable(FlatOf(src)))
 FlatExact        == phase \in {"build", "sched", "map", "done"} => flat = FlatOf(src)
 
+\* the source map of step 1 sends every expanded position to the source instruction it came from, although
+\* instructions that expand to nothing overwrite each other's entry
+MappingExact     == phase \in {"build", "sched", "map", "done"} =>
+                      \A j \in DOMAIN flat : \E n \in DOMAIN src : j \in ExpIdx(src, n) /\ Lookup(mapping, j) = Some(n)
+
 \* Lemmas linking the algorithm to the declarative statement
 \* (a) edges go forward and (b) link conflicting pairs only; (c) every conflicting pair is linked by a path:
 \*     then "max over direct Scheduled predecessors" = "max over all earlier conflicting instructions".
